@@ -27,7 +27,7 @@ ENV = dict(os.environ, CARGO_NET_OFFLINE='true', VERIF_REPO=REPO)
 TRUSTED_BASE = [
     "Coq 8.16.1 kernel (coqc; vm_compute used inside proofs for finite sweeps; native_compute not used)",
     "axioms: none (every property theorem must print 'Closed under the global context')",
-    "tools/translate.py + tools/rustexpr.py: Rust fragment -> Gallina translator for coq/Gen/*.v",
+    "tools/translate.py, translate_schema.py, translate_methods.py, rustexpr.py and the token templates tools/dyn_arm_templates.json, tools/fn_templates.json: Rust fragment -> Gallina translator for coq/Gen/*.v",
     "Coq extraction to OCaml with ExtrOcamlBasic only (bool, option, unit, list, prod, sumbool, sumor mapped; andb/orb inlined; nat/positive/N/Z extracted as inductives); no Extract Constant / Extract Inductive of our own",
     "OCaml 4.13.1 and runner/{util,ops,main}.ml (case parser, printer, comparison)",
     "harness/ (Rust): generators, DynVal serde glue, canonical printing, independent spec encoder/decoder used as direct oracle",
